@@ -31,6 +31,9 @@ def gen_case(rng, tier):
         lens = list(rng.choice(SIZES3))
     else:
         lens = list(rng.choice(SIZES2))
+    if tier == "quick" and max(lens) > 32:
+        # very long lists make use_classes itself slow to compile
+        lens = list(rng.choice([(16, 32), (22, 23), (24, 24), (32, 16)]))
     if tier == "quick" and rng.random() < 0.5:
         # keep half of the quick programs small (compile time)
         lens = list(rng.choice(SIZES2[:5] + [(4, 5), (6, 6)]))
